@@ -89,14 +89,21 @@ class Watch:
         self.ctx, self.p, self.case = ctx, p, case
         self.raised = 0
 
-    def state(self):
-        try:
-            defaults = value_fp(self.p.get_defaults())
-        except Exception as ex:  # noqa
-            defaults = ("get_defaults raises", fmt_exc(ex))
+    def state(self, reuse=None):
+        """reuse: the state observed right after the previous operation - what the parser declares has not been touched by anybody since
+        (the harness only calls the parser through ``call``), so the expensive part is not computed a second time"""
+        if reuse is not None:
+            defaults, action_defaults = reuse["defaults"], reuse["action_defaults_all"]
+        else:
+            try:
+                defaults = value_fp(self.p.get_defaults())
+            except Exception as ex:  # noqa
+                defaults = ("get_defaults raises", fmt_exc(ex))
+            action_defaults = tuple((a.dest, fp(a.default)) for a in self.p._actions)
         return {
             "defaults": defaults,
-            "action_defaults": tuple((a.dest, fp(a.default)) for a in self.p._actions),
+            "action_defaults": action_defaults,
+            "action_defaults_all": action_defaults,
             "cwd": os.getcwd(),
             "environ": dict(os.environ),
             "argparse.Namespace": argparse.Namespace is _ORIG_NS,
@@ -105,7 +112,7 @@ class Watch:
 
     def call(self, name, fn, *args):
         before_args = [fp(a) for a in args]
-        before_state = self.state()
+        before_state = self.state(reuse=getattr(self, "_after", None))
         outcome = "ok"
         result = None
         try:
@@ -122,6 +129,8 @@ class Watch:
                 self.ctx.finding(f"C08/{name}/argument-{i}-modified/{kind}/{'call-succeeded' if outcome == 'ok' else 'call-raised'}",
                                  {"op": name, "outcome": outcome, "difference": where(a, b)})
         after_state = self.state()
+        self._after = dict(after_state)
+        before_state.pop("action_defaults_all"), after_state.pop("action_defaults_all")
         # parse_args may lazily *add* helper options (--print_shtab); only the defaults declared before the call are compared
         dests = {d for d, _ in before_state["action_defaults"]}
         after_state["action_defaults"] = tuple(x for x in after_state["action_defaults"] if x[0] in dests)
